@@ -39,6 +39,9 @@ type c15Case struct {
 	// only the exchange that follows it is judged. What an observer of the earlier exchange knows (its server-final,
 	// the length of its AuthMessage) is available to the forger of the judged one.
 	Prior []string `json:"prior_exchange_with_the_same_auth_value,omitempty"`
+	// SameConn (direct, with Prior): the earlier exchange runs on the SAME connection and smtp.Client, with an Auth
+	// value of its own; the judged exchange is a second Auth call on that client with a fresh Auth value
+	SameConn bool `json:"earlier_exchange_on_the_same_connection,omitempty"`
 }
 
 type c15Step struct {
@@ -323,7 +326,16 @@ func runC15Case(r *ev.Run, c c15Case) (open bool) {
 		} else {
 			a = smtp.ScramSHA1Auth(c15User, c15Pass)
 		}
-		if len(c.Prior) > 0 {
+		if len(c.Prior) > 0 && c.SameConn {
+			var a0 smtp.Auth
+			if strings.Contains(c.Mech, "256") {
+				a0 = smtp.ScramSHA256Auth(c15User, c15Pass)
+			} else {
+				a0 = smtp.ScramSHA1Auth(c15User, c15Pass)
+			}
+			_ = sc.Auth(a0)
+			r.Count("earlier_exchanges_on_the_same_connection", 1)
+		} else if len(c.Prior) > 0 {
 			_ = sc.Auth(a)
 			_ = conn.Close()
 			r.Count("earlier_exchanges_with_the_same_auth_value", 1)
@@ -375,6 +387,14 @@ func runC15Case(r *ev.Run, c c15Case) (open bool) {
 	open = tr.Open
 	called := tr.authCalled
 	tr.mu.Unlock()
+	if !called && c.SameConn && len(c.Prior) > 0 {
+		if authErr == nil {
+			viol("success-without-any-exchange", "a second Auth call on a connection that has been through an exchange before returned nil although no AUTH command of it ever reached the server: no server message at all stands behind the reported success", steps)
+		}
+		r.Count("second_auth_calls_that_never_reached_the_server", 1)
+		r.Eval(c.Mech+"|sameconn|"+strings.Join(c.Prior, ",")+"|"+strings.Join(c.Script, ","), true)
+		return false
+	}
 	if !called {
 		r.HarnessError(fmt.Sprintf("C15: AUTH never reached the server (%v) mech=%s", authErr, c.Mech))
 		return false
@@ -646,7 +666,7 @@ func c15WarmOtherPassword(r *ev.Run) {
 
 func runC15(r *ev.Run, rep *ev.ReplayDoc) ev.Summary {
 	sum := ev.Summary{
-		Rule: "exhaustive adaptive server message sequences over the alphabet {valid server-first, server-first with foreign / truncated nonce, malformed server-first, server-first with iteration count 0, valid server-final, server-final signed with an all-zero key, empty verifier, verifier of extensions only, valid signature with trailing bytes, server-final of another key, of another exchange, over empty client state, server-error (e=...), empty challenge, junk, 235, 535} up to length 5 (quick: 4), explored as an execution tree (a branch is extended only while the client is still inside the exchange), for SCRAM-SHA-1, SCRAM-SHA-256 and both -PLUS variants (TLS 1.2 and 1.3), through mail.Client and directly through smtp.Client.Auth. 'valid' symbols are computed from what the client actually sent. Before the exploration the process completes one honest exchange per hash for the same account, salt and iteration count with another password (another Auth value). Plus: exchanges longer than any honest one (3..14, thorough 3..40 harmless messages - empty challenges and valid server-first messages - before the server ends the exchange with 535, a forged or the valid server-final). Plus: passwords the SCRAM password preparation refuses, one smtp.Auth value used for three exchanges against a server that does not know the password and signs with the empty one. non-trivial = script deviates from the honest sequence; distinct by (mechanism, script)",
+		Rule: "exhaustive adaptive server message sequences over the alphabet {valid server-first, server-first with foreign / truncated nonce, malformed server-first, server-first with iteration count 0, valid server-final, server-final signed with an all-zero key, empty verifier, verifier of extensions only, valid signature with trailing bytes, server-final of another key, of another exchange, over empty client state, server-error (e=...), empty challenge, junk, 235, 535} up to length 5 (quick: 4), explored as an execution tree (a branch is extended only while the client is still inside the exchange), for SCRAM-SHA-1, SCRAM-SHA-256 and both -PLUS variants (TLS 1.2 and 1.3), through mail.Client and directly through smtp.Client.Auth. 'valid' symbols are computed from what the client actually sent. Before the exploration the process completes one honest exchange per hash for the same account, salt and iteration count with another password (another Auth value). Plus: a second Auth call on a connection (the same smtp.Client) that has been through an exchange before - honest and successful, refused, or abandoned. Plus: exchanges longer than any honest one (3..14, thorough 3..40 harmless messages - empty challenges and valid server-first messages - before the server ends the exchange with 535, a forged or the valid server-final). Plus: passwords the SCRAM password preparation refuses, one smtp.Auth value used for three exchanges against a server that does not know the password and signs with the empty one. non-trivial = script deviates from the honest sequence; distinct by (mechanism, script)",
 		Assumptions: []string{
 			"the honest sequence is: empty challenge -> client-first, server-first, client-final, server-final, empty acknowledgement, 235",
 			"success may only be reported if a valid server-final for the running exchange was acknowledged before the final reply",
@@ -733,6 +753,18 @@ func runC15(r *ev.Run, rep *ev.ReplayDoc) ev.Summary {
 					}
 				}
 			}
+		}
+	}
+	// a connection that has been through an exchange before (honest and successful, refused, abandoned): a second Auth
+	// call on the same smtp.Client is a new exchange and is judged like any other
+	for _, mech := range []string{"SCRAM-SHA-256", "SCRAM-SHA-1"} {
+		for _, prior := range [][]string{{"E", "SF", "V", "235"}, {"E", "SF", "535"}, {"E", "SF", "Vk"}, {"E", "J"}} {
+			for _, a := range c15Alphabet {
+				pcases = append(pcases, c15Case{Mech: mech, TLS: "none", Via: "direct", Prior: prior, SameConn: true, Script: []string{a, "235"}})
+			}
+			pcases = append(pcases, c15Case{Mech: mech, TLS: "none", Via: "direct", Prior: prior, SameConn: true, Script: []string{"E", "SF", "V", "235"}},
+				c15Case{Mech: mech, TLS: "none", Via: "direct", Prior: prior, SameConn: true, Script: []string{"E", "SF", "Vk", "235"}},
+				c15Case{Mech: mech, TLS: "none", Via: "direct", Prior: prior, SameConn: true, Script: []string{"E", "SF", "535"}})
 		}
 	}
 	r.Parallel(len(pcases), func(i int) { runC15Case(r, pcases[i]) })
